@@ -412,7 +412,7 @@ func Run(c *vh.Ctx) {
 		return
 	}
 
-	c.Res.Rule = "differential: every program is translated by the real compile command, linked into one runner binary per batch and run compiled (Register+RunCompiledFile) and interpreted (LoadAndRun) in separate child processes; compared: stdout, kind of the uncaught error (first stderr line without file/position), exit status. Programs: every feature of the alphabet alone (exhaustive over the alphabet), seeded mixes of 2..5 features, lexh.GenSafe programs, library+entry class programs, deterministic echo-only corpus files. non-trivial = the interpreted run prints something or ends in an uncaught error; distinct = distinct source text. structural: per AST node type found in parsed snippets, Emit's path and the field list of a reflective literal, model vs real Generator"
+	c.Res.Rule = "differential: every program is translated by the real compile command, linked into one runner binary per batch and run compiled (Register+RunCompiledFile) and interpreted (LoadAndRun) in separate child processes; compared: stdout, kind of the uncaught error (first stderr line without file/position), exit status. Programs: every feature of the alphabet alone (exhaustive over the alphabet), seeded mixes of 2..5 features, lexh.GenSafe programs, library+entry class programs, order features (every ordered collection of the AST — class properties, parameters, arguments, array items, statements, match arms, catch clauses, switch cases, interface and use lists, operands — declared in a seeded scrambled order and printed through every observer: foreach, json_encode, (array) cast, var_dump, string conversion, serialize, first key, first-match-wins dispatch, tracer calls), deterministic echo-only corpus files. non-trivial = the interpreted run prints something or ends in an uncaught error; distinct = distinct source text. structural: per AST node type found in parsed snippets, Emit's path and the field list of a reflective literal, model vs real Generator; order probe: exchanging two distinguishable members of an ordered field that reaches the text must change the text the real Generator emits"
 
 	// ---- structural correspondence (model vs real Generator)
 	structStream(c, m)
